@@ -97,6 +97,15 @@ func c11Judge(cs *core.Case, env *Env, in, out string, lc core.LocalCounts) bool
 			lc["href_hostness_ambiguous_not_judged"]++
 		}
 		toks := oracle.RelTokens(rel)
+		// which input tag an output tag came from is only certain when the input has exactly one
+		// start tag of that name; the kept-token and duplicate clauses need that alignment
+		sameName := 0
+		for _, it := range inT {
+			if (it.Type == html.StartTagToken || it.Type == html.SelfClosingTagToken) && it.Name == t.Name {
+				sameName++
+			}
+		}
+		aligned := sameName == 1
 		// input rel of the same element: the first one the rules accept
 		inRel, haveInRel := "", false
 		for _, iv := range inputValues(inT, t.Name, "rel") {
@@ -140,7 +149,7 @@ func c11Judge(cs *core.Case, env *Env, in, out string, lc core.LocalCounts) bool
 				}
 			}
 		}
-		if sp.AnyLinkOption() {
+		if sp.AnyLinkOption() && aligned {
 			// existing tokens kept
 			if haveInRel {
 				lc["kept_token_checks"]++
